@@ -406,5 +406,77 @@ ROUND4_TECH = {
 for _k, _v in ROUND4_TECH.items():
     CLAIMS[_k]["technique"] = CLAIMS[_k]["technique"] + _v
 
+# ---- rounds 5-7 addenda (DESIGN.md §8.11-§8.13) -------------------------------------------------------------------------
+ROUND567 = {
+ "C01": " Integer widths: no value is stored into a narrower field, no address mask is built in a type narrower than the address, "
+        "counters and bit counts have the width of what they count (B9.*).",
+ "C02": " realloc's exits are a typestate over the old block (untouched / expanded / poisoned / resized / freed); the copy of the "
+        "fallback fits the new block (E.realloc-copy); the integer-width rules B9.*.",
+ "C03": " A frame header is written once, before the frame is handed out; the poison order of realloc's in-place and copying exits "
+        "(Z.poison-order); the integer-width rules B9.*.",
+ "C04": " A declaration does not promise more than the body keeps: no function that may return null is declared returns_nonnull "
+        "(Y.nonnull-contract); the map() result is tested before it is written through (N.map-result).",
+ "C05": " A protected field that is read and then updated is read and updated inside one critical section (L5.update-in-one-section).",
+ "C06": " An inserted node's colour is written on every path before fix_insert reads it (H.colour-on-entry); no local read from a child "
+        "or parent link is used again after a call that may rebalance without bound (K.stale-after-rebalance); the tree's members are "
+        "held by value and no member initialiser reads an uninitialised member (W.members-owned, O.init-reads-initialised); the two "
+        "descents are decided through folded helpers and closures as well.",
+ "C07": " The query's bounds are parameters the search owns for its duration (W.query-bounds-owned).",
+ "C08": " pop/remove replace the root on every path that removes it (H.root-replaced); a node parameter handed to a merging helper is "
+        "not used again afterwards (K.param-consumed); frg::get<Tag>(composition *) is a reference to the stored functor, also for a "
+        "small trivially copyable one (W2.composition-by-reference, a static_assert).",
+ "C09": " The leaf walk of the iterator is total over the 16 slots (E.leaf-walk-total); a fresh node's parent field matches the link it "
+        "is stored under (H.parent-matches-link); aligned_storage honours extended alignments, so entries[] is aligned for T "
+        "(W2.storage-layout, static_asserts).",
+ "C10": " find() returns only values decided under the prefix match and the set bit, single-exit forms included (E.find-guarded through "
+        "exit values); W2.storage-layout as for C09.",
+ "C11": " The integer-width rules B9.* on the period counters.",
+ "C12": " The guard of a byte-aligned mutex is larger than a pointer: its ownership flag cannot be carried by the mutex address "
+        "(W2.guard-types, a static_assert that stays decidable when the guard's representation changes).",
+ "C13": " Count-down loops compare a signed counter as signed (B8.countdown-sign); swapping inline storage moves into empty storage only "
+        "(O.swap-into-empty-storage); list splice keeps the tail's provenance (H.list-splice); raw storage honours the element's "
+        "alignment (W2.storage-layout); operator== of a sequence never compares floating-point or class elements byte-wise "
+        "(Y.bytewise-on-bytes, with instantiations for double, float and unsigned char).",
+ "C14": " All past-the-end iterators -- end(), end() const, begin() of an empty map, operator++ at exhaustion -- designate one bucket "
+        "value (K.end-sentinel-agrees, a sibling cross-check); the key type's own equality answers true only under equal lengths "
+        "(E.equal-lengths-first); a local table is paired with its capacity through folded allocation helpers; members owned by value.",
+ "C15": " Counts handed to memcpy are in bytes (B2.count-in-bytes); operator== of a view answers true only where the lengths are known "
+        "equal and never lets the identity of the character pointers decide (E.equal-lengths-first); to_number has a refusal that looks "
+        "at the current digit (E.to-number-exact); byte-wise routines only over byte-sized characters (Y.bytewise-on-bytes).",
+ "C16": " unique_ptr detaches before it destroys (O9.detach-before-destroy); W2.storage-layout: a union's storage fits every member "
+        "in every order (six orders of three members, up to six members, over-aligned ones).",
+ "C17": " `x = {}` empties a holder (W.brace-assign-empties) and emplace direct-initialises (W.emplace-direct-init), both decided by overload "
+        "resolution on witness expressions; tuple_cat keeps reference elements references; W2.storage-layout as for C16.",
+ "C18": " The word count of a bitset is ceil(N / bits per word) (I.word-count); frg::min/max return their second argument only under "
+        "the strict comparison, so that a tie returns the first (E.minmax-tie, on instantiations for int and a class type); the PCG "
+        "rejection threshold is (N % bound) with N == -bound modulo 2^32 (a clause of T.prng-constants, N read as a linear form).",
+ "C19": " Every directive starts from fresh options (I.directive-options-fresh); generic_strnlen reads only under n < max or delegates "
+        "with a count made from max (B.strnlen-bounded); a group size read from grouping[g] is not used after g moved "
+        "(K.group-size-current); byte-wise searches only over byte-sized characters (Y.bytewise-on-bytes, decided on the wchar_t "
+        "instantiation that %ls with a precision uses).",
+ "C20": " K.group-size-current, Y.bytewise-on-bytes, E.to-number-exact and E.equal-lengths-first as for C19/C15.",
+}
+for _k, _v in ROUND567.items():
+    CLAIMS[_k]["text"] = CLAIMS[_k]["text"] + _v
+ROUND567_TECH = {
+ "C01": "; integer-width dataflow over field/operand bit widths",
+ "C02": "; exit typestate of realloc",
+ "C04": "; attribute-vs-body contract check",
+ "C06": "; alias-set dataflow for the colour write; call-graph reachability of rotations",
+ "C08": "; static_assert witness on composition",
+ "C09": "; static_assert witnesses on raw storage",
+ "C10": "; static_assert witnesses on raw storage",
+ "C12": "; size witness on a byte-aligned mutex",
+ "C13": "; element type read underneath void* conversions at byte-wise calls; static_assert witnesses on raw storage",
+ "C14": "; sibling agreement of sentinel constructions",
+ "C15": "; dependence of refusal decisions on the current digit",
+ "C16": "; static_assert witnesses on raw storage",
+ "C17": "; overload-resolution witnesses",
+ "C18": "; facts under which each argument is returned; linear forms modulo 2^32",
+ "C19": "; forward dataflow over cursor-derived locals with closures folded",
+}
+for _k, _v in ROUND567_TECH.items():
+    CLAIMS[_k]["technique"] = CLAIMS[_k]["technique"] + _v
+
 NOT_YET = "check not built yet in this revision (see DESIGN.md §7 order of work); not claimed until it exists"
 NA = {}
